@@ -71,6 +71,9 @@ class Plane(BaseGeometry):
         geometry_dict.update({
             'radius': np.inf,
         })
+        # a conic constant may have been set on the flat surface
+        if hasattr(self, 'k'):
+            geometry_dict['conic'] = self.k
         return geometry_dict
 
     @classmethod
@@ -84,4 +87,7 @@ class Plane(BaseGeometry):
             Plane: The plane geometry.
         """
         cs = CoordinateSystem.from_dict(data['cs'])
-        return cls(cs)
+        plane = cls(cs)
+        if 'conic' in data:
+            plane.k = data['conic']
+        return plane
